@@ -6,7 +6,7 @@ from vlib import Toks, f2h, h2f, lst
 ID = "C09"
 LEVEL = "proof"
 HARNESS = "c09"
-LEAN_MODULES = ["NanoVerif.Props.C09"]
+LEAN_MODULES = ["NanoVerif.Props.C09", "NanoVerif.Proofs.IteratorDataset", "NanoVerif.Proofs.IteratorSelect"]
 NS = "NanoVerif.Objective."
 OBLIGATIONS = [NS + t for t in [
     "chunks_tile", "mapReduce_eq", "fillChunks_chunks",
@@ -18,10 +18,32 @@ OBLIGATIONS = [NS + t for t in [
     "scale_assignment_independent", "scale_batch_independent",
     "grads_eq_def", "grads_batch_independent",
     "sumReduce_eq_reduce_model", "sumReduce_total", "sumReduce_schedule_total",
+    # end to end from the raw dataset (gap-closing round)
+    "linear_end_to_end", "linear_iter_none_of_empty", "linear_value_only_eq_def", "bias_end_to_end", "scale_end_to_end",
+    "grads_end_to_end", "callback_reads_def", "servedRow_zip", "linearV_acc_canonical", "linear_from_raw", "gboost_from_raw",
+]] + ["NanoVerif.Iterator." + t for t in [
+    # the iterators (Model/Iterator.lean)
+    "chunks_tiles", "tiles_flatten", "makeStats_eq_defStats", "stats_batch_independent", "scaled_cell_spec",
+    "computeRows_eq", "mapM_scaleRow_none", "fillCache_eq", "fillCache_none_of_bad_worker", "fill_total", "loopWith_eq",
+    "inv_make", "inv_step", "inv_run", "fresh_make", "fresh_step", "fresh_configure_then_cache",
+    "served_eq_scaled_flatten", "served_targets_eq_scaled", "served_inputs_eq_scaled", "cached_eq_uncached",
+    "cache_flatten_spec", "cache_targets_spec", "loop_none_of_batch_zero", "serve_none_of_bad_worker",
+    "stale_cache_witness", "served_bit_identical_float",
+    # select_iterator_t (Model/IteratorSelect.lean)
+    "featuresPerThread_pos", "featuresPerThread_eq", "makeFeatures_mem", "makeFeatures_sorted", "selectLoop_eq",
+    "loopList_visits", "loopKind_visits",
+    # the contract about the dataset, proved for the C08 dataset model (Proofs/IteratorDataset.lean)
+    "flatten_samplewise", "flatten_slice", "targets_samplewise", "data_flat_is_dataset_flatten",
 ]]
 TRUSTED = [
     "Lean 4.33.0 kernel; Mathlib modules Algebra.Order.Field.Basic, Tactic.Ring/Linarith/FieldSimp (Proofs/Objective.lean, Props/C09.lean)",
     "axioms: at most propext, Classical.choice, Quot.sound (audited per theorem on every run)",
+    "hand-written model NanoVerif/Model/Iterator.lean of targets_iterator_t / flatten_iterator_t (constructors' statistics with their "
+    "own batching, batch / scaling setters, cache_flatten / cache_targets with the byte budget, cached and uncached serving paths, the "
+    "three loops) on top of the C14 scaling model (Model/Scaling.lean) and a row view of the C08 dataset; tied to the code by the "
+    "correspondence family `iter hist` (histories on ONE real flatten_iterator_t, every served value and every statistic compared) and "
+    "by the `objective` family, whose model side now starts from the RAW dump; Model/IteratorSelect.lean of select_iterator_t "
+    "(features_per_thread through the translated Gen.idiv, make_features, the three kinds of loop), family `iter select`",
     "hand-written model NanoVerif/Model/Objective.lean of pool_t::map chunking, the per-thread accumulators of linear/function.cpp + "
     "linear/accumulator.cpp + linear/util.cpp (predict), gboost/function.cpp + gboost/accumulator.cpp and reduce.h; tied to the code by the "
     "correspondence run: harness/c09.cpp on the real classes vs the compiled Lean driver fed with the chunk->worker schedule observed "
@@ -33,8 +55,13 @@ ASSUMPTIONS = [
     "exact arithmetic in the theorems; floating-point re-association is bounded only empirically by the tolerance 1e-9 relative to the "
     "sum of the magnitudes of the summands (the property's own tolerance), not proved",
     "the loss is an arbitrary function of (sample, outputs) in the theorems; its kernels are the subject of C06",
-    "the scaled, missing->0 flattened inputs and targets are taken as served by the iterator with 1 thread / 1 batch / no cache (their "
-    "correctness w.r.t. the raw data is the subject of C14/C08); every other configuration must serve bit-identical data (hash)",
+    "the RAW flattened rows (dataset_t::flatten / dataset_t::targets of the iterator's samples, NaN = missing) and the per-column enable "
+    "masks are taken from the implementation (C08's subject: flatten_eq_encode_select, targets_spec; in the model: Data.flat / Data.targ "
+    "return the row of a stored sample and `flatten(samples)` is the list of those rows) — everything after that (statistics, scaling, "
+    "NaN->0, batching, caches, per-thread serving) is modelled, proved and recomputed independently by the python oracle",
+    "a cache filled under one scaling mode and read after scaling(other mode) serves the OLD scaling (stale_cache_witness + corpus op); "
+    "the library always configures before caching (linear.cpp:34-37), the property's configurations are (scaling, batch, threads, cached) "
+    "set in that order; the oracle checks such histories against the snapshot semantics and counts them (iter:stale-cache-history)",
     "data races on the per-thread buffers are outside the model; they are observed only through wrong results / sanitizer reports",
     "a worker executes the chunks it pops one after the other and the k-th pop takes the k-th enqueued chunk (pool protocol, C17)",
 ]
@@ -42,7 +69,13 @@ RULE = ("random in-memory datasets (1..200 samples, 1..10 mixed features: single
         "values 0-100%), regression / single-label / multi-label targets, all 17 losses, l1,l2 in {0} u [1e-6,1e6], 4 scalings, sample "
         "subsets (ranges and shuffled subsets), random parameter vectors, cluster assignments incl. unassigned, weak-learner outputs; per "
         "case the (threads, batch, cached) configurations threads in {1,2,3,16} x batch in {1,7,n-1,n,n+1,10000} x cached in {0,1} (quick: "
-        "a sample of 10, thorough: all); a case is non-trivial when some configuration has >= 2 threads and >= 2 chunks; distinct by op text")
+        "a sample of 10, thorough: all); a case is non-trivial when some configuration has >= 2 threads and >= 2 chunks; distinct by op text; "
+        "plus `iter hist` histories on one iterator (1..200 samples, some 1001..1300 to cross the constructors' statistics batch of 1000; "
+        "statistics batches {1,2,7,n-1,n,n+1,1000}; steps batch / scaling / cache_flatten(max_bytes) / cache_targets(max_bytes) with budgets "
+        "{-1, 0, 8*n*cols-1, 8*n*cols, 2^62} / the three loops, 1..16 threads): non-trivial when a loop has >= 2 chunks or a cache is filled; "
+        "plus `iter select`: select_iterator_t over 1..40 features (counts around the pool sizes 15/16/17, 31/33), the four callback kinds, "
+        "all-features / feature lists (permutations, repetitions, empty) / single feature, pools of 1..16: non-trivial with >= 2 threads and "
+        ">= 2 features")
 FLAVOUR = {"quick": "plain", "thorough": "asan"}
 RTOL = 1e-9          # the property's own tolerance (relative to the sum of the magnitudes of the summands)
 HARNESS_TIMEOUT = 1500
@@ -186,6 +219,8 @@ def gen_reduce(rng, tier):
 def gen(rng, tier):
     ops = corpus()
     ops += gen_reduce(rng, tier)
+    ops += gen_iter(rng, tier)
+    ops += gen_select(rng, tier)
     # every loss at least once per kind family, small fixed shapes (boundary: n-1, n, n+1 around tiny n)
     k = 0
     for loss in REG_LOSSES + S_LOSSES + M_LOSSES:
@@ -210,6 +245,26 @@ def nontrivial(op):
     if op.startswith("reduce "):
         t = op.split()
         return int(t[3]) >= 2 and int(t[5]) >= 2
+    if op.startswith("iter select "):
+        try:
+            d, _ = parse_select(op)
+        except Exception:
+            return False
+        return d["threads"] >= 2 and len(select_expected(d)) >= 2
+    if op.startswith("iter "):
+        try:
+            d, _ = parse_iter(op)
+        except Exception:
+            return False
+        n = d["b"] - d["a"]; batch = 100
+        for st in d["steps"]:
+            if st[0] == "B":
+                batch = st[1]
+            elif st[0] in ("CF", "CT") and st[1] >= 8 * n * max(d["tdim"], 1):
+                return True
+            elif st[0] in ("L", "LF", "LT") and batch < n:
+                return True
+        return False
     try:
         d, _ = parse_op(op)
     except Exception:
@@ -226,6 +281,38 @@ def distribution(ops):
             for k in ["reduce-sum", "reduce-sum:workers" + ("1" if W == 1 else "2-3" if W < 4 else "4-8" if W < 9 else "9-16" if W < 17 else "17+")]:
                 d[k] = d.get(k, 0) + 1
             continue
+        if op.startswith("iter select "):
+            try:
+                o, _ = parse_select(op)
+            except Exception:
+                d["unparsed"] = d.get("unparsed", 0) + 1
+                continue
+            nf = len(select_expected(o))
+            for k in ["iter-select", "select:mode" + o["mode"], "select:kind%d" % o["kind"],
+                      "select:features" + ("0" if nf == 0 else "<threads" if nf < o["threads"] else ">=threads")]:
+                d[k] = d.get(k, 0) + 1
+            continue
+        if op.startswith("iter "):
+            try:
+                o, _ = parse_iter(op)
+            except Exception:
+                d["unparsed"] = d.get("unparsed", 0) + 1
+                continue
+            n = o["b"] - o["a"]
+            keys = ["iter-hist", "iter:threads" + ("1" if o["threads"] == 1 else "2-3" if o["threads"] < 4 else "4-16"),
+                    "iter:n" + ("1" if n == 1 else "2-9" if n < 10 else "10-200" if n <= 200 else ">1000"),
+                    "iter:stats-batch" + ("-divides-n" if n % o["sbF"] == 0 else "-remainder")]
+            if iter_is_stale(op):
+                keys.append("iter:stale-cache-history")
+            for st in o["steps"]:
+                if st[0] in ("CF", "CT"):
+                    width = feat_cols(o["feats"]) if st[0] == "CF" else o["tdim"]
+                    keys.append(f"iter:{st[0]}-" + ("fits" if 8 * n * width <= st[1] else "refused"))
+                elif st[0] in ("L", "LF", "LT"):
+                    keys.append("iter:loop-" + st[0])
+            for k in keys:
+                d[k] = d.get(k, 0) + 1
+            continue
         try:
             o, _ = parse_op(op)
         except Exception:
@@ -237,10 +324,494 @@ def distribution(ops):
                   "l1>0" if o["l1"] > 0 else "l1=0", "l2>0" if o["l2"] > 0 else "l2=0",
                   "subset" if (o["smode"] == 1 or n != o["N"]) else "all-samples"]:
             d[k] = d.get(k, 0) + 1
+        if o["loss"] in ("mse", "mae") and n * ((feat_cols(o["feats"]) if o["kind"] == "linear" else 0) + o["tdim"]) <= 600:
+            d["end-to-end-model-function-run"] = d.get("end-to-end-model-function-run", 0) + 1
         for t, bt, c in o["variants"]:
             key = f"cfg:threads{t}/" + ("batch1" if bt == 1 else "batch<n" if bt < n else "batch=n" if bt == n else "batch>n") + ("/cached" if c else "")
             d[key] = d.get(key, 0) + 1
     return d
+
+
+
+# ---------------------------------------------------------------------------------------------------------------------
+# independent recomputation of the statistics and of the scaling from the RAW data (C14's documented formulas)
+
+class Col:
+    """statistics of one column over all the rows (two-pass, math.fsum): count of finite values, min, max, mean, stdev,
+    the eps-guarded divisors; a disabled (categorical) column and a column with < 2 values are left as they are"""
+    def __init__(self, vals, enabled, eps):
+        v = [x for x in vals if math.isfinite(x)]
+        self.n = len(v); self.enabled = bool(enabled)
+        self.mn = self.mx = self.mean = self.sd = 0.0
+        self.div_range = self.mul_range = self.div_sd = self.mul_sd = 1.0
+        self.sumsq = math.fsum(x * x for x in v); self.maxabs = max([abs(x) for x in v] + [0.0]); self.S = 0.0
+        self.meanabs = math.fsum(abs(x) for x in v) / self.n if self.n else 0.0
+        if not self.enabled or self.n == 0:
+            return
+        self.mn, self.mx = min(v), max(v)
+        self.mean = math.fsum(v) / self.n
+        if self.n >= 2:
+            self.S = math.fsum((x - self.mean) ** 2 for x in v)
+            self.sd = math.sqrt(self.S / (self.n - 1))
+            self.mul_range = max(self.mx - self.mn, eps); self.div_range = 1.0 / self.mul_range
+            self.mul_sd = max(self.sd, eps); self.div_sd = 1.0 / self.mul_sd
+
+    def centre_div(self, mode):
+        if mode == 1:
+            return self.mean, self.div_range
+        if mode == 2:
+            return self.mn, self.div_range
+        if mode == 3:
+            return self.mean, self.div_sd
+        return 0.0, 1.0
+
+    def scale(self, x, mode):
+        if not math.isfinite(x):
+            return 0.0                                  # missing -> 0
+        if mode == 0:
+            return x
+        c, d = self.centre_div(mode)
+        return (x - c) * d
+
+    def tol(self, x, mode):
+        """|served - ours| allowed: 1e-12 relative to the column magnitude times the divisor; for the standard mode also the
+        one-pass variance's cancellation error (None: numerically constant column, the quotient is not determined)"""
+        c, d = self.centre_div(mode)
+        t = 1e-12 * (1.0 + (abs(x) + self.maxabs) * abs(d))
+        if mode == 3 and self.enabled and self.n >= 2:
+            if self.S <= 1e-11 * (self.n + 10) * self.sumsq:
+                return None
+            t += abs((x - c) * d) * 1e-14 * (self.n + 10) * self.sumsq / self.S
+        return t
+
+
+def scale_matrix(raw, n, k, en, mode, eps):
+    cols = [Col([raw[i * k + j] for i in range(n)], en[j], eps) for j in range(k)]
+    return [cols[j].scale(raw[i * k + j], mode) for i in range(n) for j in range(k)], cols
+
+
+def served_mismatch(what, served, mine, raw, n, k, cols, mode):
+    if len(served) != n * k:
+        return f"{what}: {len(served)} values served, {n}x{k} expected"
+    for i in range(n):
+        for j in range(k):
+            a = served[i * k + j]; b = mine[i * k + j]; x = raw[i * k + j]
+            if a == b:
+                continue
+            tol = cols[j].tol(x, mode) if math.isfinite(x) else 0.0
+            if tol is None:
+                continue
+            if not (abs(a - b) <= tol):
+                c = cols[j]
+                return (f"{what}: sample position {i}, column {j} (scaling mode {mode}, {'scalable' if c.enabled else 'categorical'}, "
+                        f"{c.n} finite values): raw {x!r} served as {a!r}, the definition nan2zero(scale(raw)) gives {b!r} "
+                        f"[min {c.mn!r} max {c.mx!r} mean {c.mean!r} stdev {c.sd!r}]")
+    return None
+
+
+def stats_mismatch(what, st, cols):
+    """the dumped scalar_stats_t (list of 9-tuples) against the recomputed column statistics"""
+    if len(st) != len(cols):
+        return f"{what}: statistics of {len(st)} columns, {len(cols)} expected"
+    for j, ((cnt, mn, mx, mean, sd, dr, mr, dsd, msd), c) in enumerate(zip(st, cols)):
+        name = f"{what} column {j} ({c.n} finite values, {'scalable' if c.enabled else 'categorical'})"
+        if cnt != c.n:
+            return f"{name}: counts {cnt} samples"
+        if not c.enabled or c.n <= 1:
+            want = (c.mn, c.mx, c.mean, 0.0, 1.0, 1.0, 1.0, 1.0)
+            if (mn, mx, mean, sd, dr, mr, dsd, msd) != want:
+                return f"{name}: statistics {(mn, mx, mean, sd, dr, mr, dsd, msd)} instead of {want}"
+            continue
+        if mn != c.mn or mx != c.mx:
+            return f"{name}: min/max {mn!r}/{mx!r} != {c.mn!r}/{c.mx!r}"
+        if not abs(mean - c.mean) <= 1e-14 * (c.n + 10) * c.meanabs + 1e-300:
+            return f"{name}: mean {mean!r} != {c.mean!r}"
+        if not abs(sd * sd * (c.n - 1) - c.S) <= 1e-14 * (c.n + 10) * c.sumsq + 1e-300:
+            return f"{name}: stdev {sd!r} != {c.sd!r}"
+        eps = EPS2
+        for got, want, nm in [(mr, max(mx - mn, eps), "mul_range"), (dr, 1.0 / max(mx - mn, eps), "div_range"),
+                              (msd, max(sd, eps), "mul_stdev"), (dsd, 1.0 / max(sd, eps), "div_stdev")]:
+            if not abs(got - want) <= 1e-14 * abs(want):
+                return f"{name}: {nm} {got!r} != {want!r}"
+    return None
+
+
+EPS2 = None   # epsilon2<scalar_t>() as dumped by the harness (set per op)
+
+
+# ---------------------------------------------------------------------------------------------------------------------
+# family `iter hist`: histories on one flatten_iterator_t
+
+BIG = 1 << 62
+
+
+def make_iter(seed, N, feats, tkind, tdim, miss, a, b, smode, threads, sbF, sbT, steps):
+    fl = []
+    for k, sz in feats:
+        fl += [k, sz]
+    st = " ".join(" ".join(str(x) for x in stp) for stp in steps)
+    return f"iter hist {seed} {N} {lst(fl)} {tkind} {tdim} {miss} {a} {b} {smode} {threads} {sbF} {sbT} {len(steps)} {st}".strip()
+
+
+def feat_cols(feats):
+    return sum((sz - 1) if k == 0 else (sz if k in (1, 3) else 1) for k, sz in feats)
+
+
+def parse_iter(op):
+    t = Toks(op)
+    t.s(); t.s()
+    d = dict(seed=t.int(), N=t.int())
+    fl = t.ints(); d["feats"] = [(fl[i], fl[i + 1]) for i in range(0, len(fl), 2)]
+    d["tkind"] = t.s(); d["tdim"] = t.int(); d["miss"] = t.int(); d["a"] = t.int(); d["b"] = t.int(); d["smode"] = t.int()
+    d["threads"] = t.int(); d["sbF"] = t.int(); d["sbT"] = t.int()
+    K = t.int(); steps = []
+    for _ in range(K):
+        k = t.s()
+        steps.append((k, t.int()) if k in ("B", "S", "CF", "CT") else (k,))
+    d["steps"] = steps
+    return d, t
+
+
+def iter_of(d):
+    return make_iter(d["seed"], d["N"], d["feats"], d["tkind"], d["tdim"], d["miss"], d["a"], d["b"], d["smode"], d["threads"],
+                     d["sbF"], d["sbT"], d["steps"])
+
+
+def gen_iter_case(rng, tier, big=False):
+    seed = rng.u64() >> 1
+    if big:
+        N = rng.range(1001, 1300)
+    else:
+        N = rng.choice([1, 2, 3, 7, 8, 9, 50, 100, 199, 200]) if rng.chance(0.4) else rng.range(1, 200)
+    feats = []
+    for _ in range(rng.range(1, 3 if big else 6)):
+        k = rng.below(5)
+        feats.append((k, rng.range(2, 4) if k <= 1 else (rng.range(1, 4) if k == 3 else 1)))
+    tkind = rng.choice(["R", "R", "S", "M"])
+    tdim = rng.choice([1, 1, 2, 3]) if tkind == "R" else rng.range(2, 4)
+    miss = rng.choice([0, 0, 10, 30, 60, 100])
+    r = rng.below(10)
+    if r < 6 or N == 1 or big:
+        a, b, smode = 0, N, 0
+    elif r < 8:
+        a = rng.range(0, N - 1); b = rng.range(a + 1, N); smode = 0
+    else:
+        a = 0; b = rng.range(1, N); smode = 1
+    n = b - a
+    threads = rng.choice([1, 2, 3, 16, rng.range(4, 15)])
+    sbs = [x for x in [1, 2, 7, n - 1, n, n + 1, 1000] if x >= 1]
+    if big:
+        sbs = [x for x in sbs if x >= 7]
+    sbF = rng.choice(sbs); sbT = rng.choice(sbs)
+    cols = feat_cols(feats)
+    tc = tdim
+    bt = lambda: rng.choice([b_ for b_ in ([1, 7, n - 1, n, n + 1, 10000] if not big else [100, 333, 1000, n]) if b_ >= 1])
+    budget = lambda c: rng.choice([BIG, BIG, BIG, 8 * n * c, 8 * n * c - 1, 0, -1])
+    steps = []
+    r = rng.below(20)
+    m = rng.below(4)
+    if r == 0:
+        # a cache filled under one scaling, read after scaling(another): the cached path serves the old scaling
+        m2 = rng.choice([x for x in range(4) if x != m])
+        steps = [("B", bt()), ("S", m), ("CF", BIG), ("CT", BIG), ("S", m2), ("L",)]
+    elif r == 1:
+        # cache_targets with a too small budget keeps the cache filled before; cache_flatten empties it
+        steps = [("B", bt()), ("S", m), ("CF", BIG), ("CT", BIG), ("B", bt()), ("CF", 8 * n * cols - 1), ("CT", 8 * n * tc - 1), ("L",)]
+    elif r == 2:
+        steps = [("S", m), ("L",), ("B", bt()), ("LT",), ("CF", budget(cols)), ("LF",), ("B", bt()), ("L",)]
+    else:
+        steps = [("B", bt()), ("S", m)]
+        if rng.chance(0.6):
+            steps.append(("CF", budget(cols)))
+        if rng.chance(0.6):
+            steps.append(("CT", budget(tc)))
+        steps.append((rng.choice(["L", "L", "L", "LT", "LF"]),))
+        if rng.chance(0.4):
+            steps += [("B", bt()), (rng.choice(["L", "LT", "LF"]),)]
+    return make_iter(seed, N, feats, tkind, tdim, miss, a, b, smode, threads, sbF, sbT, steps)
+
+
+def gen_iter(rng, tier):
+    ops = []
+    # fixed small shapes: n not a multiple of the statistics batch, N = 2 (statistics need N > 1, not N > 2), every mode
+    for m in range(4):
+        for (N, sb) in [(2, 1), (3, 2), (7, 3), (10, 7)]:
+            ops.append(make_iter(7000 + m, N, [(2, 1), (0, 3), (4, 1), (3, 2), (1, 2)], "R", 2, 0 if N == 2 else 20, 0, N, 0,
+                                 [1, 2, 3, 16][m], sb, sb, [("B", 3), ("S", m), ("L",), ("CF", BIG), ("CT", BIG), ("L",), ("LT",)]))
+    for _ in range(150 if tier == "quick" else 600):
+        ops.append(gen_iter_case(rng, tier))
+    for _ in range(3 if tier == "quick" else 20):
+        ops.append(gen_iter_case(rng, tier, big=True))
+    return ops
+
+
+def parse_stats(r):
+    k = r.int()
+    out = []
+    for _ in range(k):
+        cnt = r.int()
+        out.append((cnt,) + tuple(r.f() for _ in range(8)))
+    return out
+
+
+def iter_walk(aug, res):
+    """shared by the oracle: parses op, dump and result; returns (None, why) or (info, None)"""
+    global EPS2
+    d, t = parse_iter(aug)
+    if t.s() != "|":
+        return "no dump"
+    workers = t.int()
+    if t.s() != "raw":
+        return "no raw dump"
+    eps = t.f(); t.f(); t.f()
+    EPS2 = eps
+    enF = t.ints(); enT = t.ints()
+    k = t.int(); RX = [h2f(x) for x in t.t[t.i:t.i + k]]; t.i += k
+    k = t.int(); RT = [h2f(x) for x in t.t[t.i:t.i + k]]; t.i += k
+    asgs = [t.ints() for _ in d["steps"]]
+    if not t.done():
+        return "trailing tokens in the dump"
+    n = d["b"] - d["a"]; s = len(enF); ts = len(enT)
+    if s != feat_cols(d["feats"]):
+        return f"{s} flattened columns, the features of the op have {feat_cols(d['feats'])}"
+    if len(RX) != n * s or len(RT) != n * ts:
+        return "raw dump sizes"
+    r = Toks(res)
+    if r.s() != "ok":
+        return f"implementation did not answer ok: {res[:120]}"
+    sF = parse_stats(r); sT = parse_stats(r); dF = parse_stats(r); dT = parse_stats(r)
+    colsF = [Col([RX[i * s + j] for i in range(n)], enF[j], eps) for j in range(s)]
+    colsT = [Col([RT[i * ts + j] for i in range(n)], enT[j], eps) for j in range(ts)]
+    for what, st, cols in [("iterator flatten_stats:", sF, colsF), ("iterator targets_stats:", sT, colsT),
+                           (f"make_flatten_stats(batch={d['sbF']}):", dF, colsF), (f"make_targets_stats(batch={d['sbT']}):", dT, colsT)]:
+        why = stats_mismatch(what, st, cols)
+        if why:
+            return "[statistics] " + why
+    # the walk: batch, mode, and for each cache the mode it was filled under (None: not cached)
+    batch, mode, fmode, tmode = 100, 0, None, None
+    stale = False
+    for (step, asg) in zip(d["steps"], asgs):
+        kind = step[0]
+        if kind == "B":
+            batch = step[1]
+        elif kind == "S":
+            mode = step[1]
+        elif kind in ("CF", "CT"):
+            width = s if kind == "CF" else ts
+            fits = 8 * n * width <= step[1]
+            if r.s() != "c":
+                return "result layout"
+            flag = r.int()
+            if flag != (1 if fits else 0):
+                return (f"[cache-budget] {'cache_flatten' if kind == 'CF' else 'cache_targets'}({step[1]}) returned {flag}: "
+                        f"{n} samples x {width} columns x 8 bytes = {8 * n * width}")
+            if fits:
+                nch = (n + batch - 1) // batch
+                if len(asg) != nch or any(w < 0 or w >= workers for w in asg):
+                    return f"[schedule] cache fill: {len(asg)} chunks executed by workers {asg[:8]} of {workers} (expected {nch} chunks)"
+                if kind == "CF":
+                    fmode = mode
+                else:
+                    tmode = mode
+            elif kind == "CF":
+                fmode = None            # cache_flatten empties the cache first; cache_targets keeps an older one
+        else:
+            if r.s() != "l":
+                return "result layout"
+            nch = r.int()
+            bounds = [(r.int(), r.int()) for _ in range(nch)]
+            cmin = r.int(); cmax = r.int()
+            k = r.int(); X = [h2f(x) for x in r.t[r.i:r.i + k]]; r.i += k
+            k = r.int(); T = [h2f(x) for x in r.t[r.i:r.i + k]]; r.i += k
+            cfg = f"loop {kind} batch={batch} scaling={mode} threads={d['threads']} cachedF={fmode is not None} cachedT={tmode is not None}"
+            want = [(b0, min(b0 + batch, n)) for b0 in range(0, n, batch)]
+            if bounds != want:
+                return f"[ranges] {cfg}: ranges {bounds[:6]}… handed to the callback, expected {want[:6]}…"
+            if cmin != 1 or cmax != 1:
+                return f"[ranges] {cfg}: a sample was served {cmin if cmin != 1 else cmax} times"
+            if len(asg) != nch or any(w < 0 or w >= workers for w in asg):
+                return f"[schedule] {cfg}: workers {asg[:8]} of {workers}"
+            if kind in ("L", "LF"):
+                em = mode if fmode is None else fmode
+                stale = stale or em != mode
+                mine, cols = scale_matrix(RX, n, s, enF, em, eps)
+                why = served_mismatch("inputs", X, mine, RX, n, s, cols, em)
+                if why:
+                    return f"[served-vs-raw] {cfg}: {why}"
+            elif X:
+                return f"[ranges] {cfg}: inputs served by a targets-only loop"
+            if kind in ("L", "LT"):
+                em = mode if tmode is None else tmode
+                stale = stale or em != mode
+                mine, cols = scale_matrix(RT, n, ts, enT, em, eps)
+                why = served_mismatch("targets", T, mine, RT, n, ts, cols, em)
+                if why:
+                    return f"[served-vs-raw] {cfg}: {why}"
+            elif T:
+                return f"[ranges] {cfg}: targets served by an inputs-only loop"
+    if not r.done():
+        return "result layout: trailing tokens"
+    return None
+
+
+def oracle_iter(aug, res):
+    try:
+        why = iter_walk(aug, res)
+    except (ValueError, IndexError) as ex:
+        return f"[dump] {ex}"
+    if why is None:
+        return None
+    return why if why.startswith("[") else f"[dump] {why}"
+
+
+def iter_is_stale(op):
+    """a loop reads a cache that was filled under another scaling mode (decided from the op text alone; budgets: by size)"""
+    try:
+        d, _ = parse_iter(op)
+    except Exception:
+        return False
+    n = d["b"] - d["a"]; s = feat_cols(d["feats"]); ts = d["tdim"]
+    mode, fm, tm = 0, None, None
+    for st in d["steps"]:
+        if st[0] == "S":
+            mode = st[1]
+        elif st[0] == "CF":
+            fm = mode if 8 * n * s <= st[1] else None
+        elif st[0] == "CT":
+            tm = mode if 8 * n * ts <= st[1] else tm
+        elif st[0] in ("L", "LF") and fm is not None and fm != mode:
+            return True
+        if st[0] in ("L", "LT") and tm is not None and tm != mode:
+            return True
+    return False
+
+
+def compare_iter(impl_line, model_line):
+    a, m = impl_line.split(), model_line.split()
+    if len(a) != len(m) or not a or a[0] != "ok":
+        return False
+    for x, y in zip(a, m):
+        if x == y:
+            continue
+        if vlib.is_hexf(x) and vlib.is_hexf(y) and x != "nan" and y != "nan":
+            fx, fy = h2f(x), h2f(y)
+            if abs(fx - fy) <= 1e-12 * max(abs(fx), abs(fy)) + 1e-300:
+                continue
+        return False
+    return True
+
+
+# ---------------------------------------------------------------------------------------------------------------------
+# family `iter select`: select_iterator_t
+
+def feat_kind(k, sz):
+    """kind of the generated feature as select_iterator_t sees it: 0 sclass, 1 mclass, 2 scalar, 3 struct"""
+    return 0 if k == 0 else 1 if k == 1 else (3 if (k == 3 and sz > 1) else 2)
+
+
+def dataset_kinds(feats):
+    """the dataset's features: the four identity generators are added in the order sclass, mclass, scalar, struct"""
+    ks = [feat_kind(k, sz) for k, sz in feats]
+    return sorted(ks)
+
+
+def make_select(seed, N, feats, tkind, tdim, miss, a, b, smode, threads, kind, mode, arg=None):
+    fl = []
+    for k, sz in feats:
+        fl += [k, sz]
+    tail = "A" if mode == "A" else (f"L {lst(arg)}" if mode == "L" else f"O {arg}")
+    return f"iter select {seed} {N} {lst(fl)} {tkind} {tdim} {miss} {a} {b} {smode} {threads} {kind} {tail}"
+
+
+def parse_select(op):
+    t = Toks(op)
+    t.s(); t.s()
+    d = dict(seed=t.int(), N=t.int())
+    fl = t.ints(); d["feats"] = [(fl[i], fl[i + 1]) for i in range(0, len(fl), 2)]
+    d["tkind"] = t.s(); d["tdim"] = t.int(); d["miss"] = t.int(); d["a"] = t.int(); d["b"] = t.int(); d["smode"] = t.int()
+    d["threads"] = t.int(); d["kind"] = t.int(); d["mode"] = t.s()
+    d["arg"] = t.ints() if d["mode"] == "L" else (t.int() if d["mode"] == "O" else None)
+    return d, t
+
+
+def select_of(d):
+    return make_select(d["seed"], d["N"], d["feats"], d["tkind"], d["tdim"], d["miss"], d["a"], d["b"], d["smode"], d["threads"],
+                       d["kind"], d["mode"], d["arg"])
+
+
+def select_expected(d):
+    """the features the callback must be called for (with multiplicity)"""
+    ks = dataset_kinds(d["feats"])
+    if d["mode"] == "A":
+        return [i for i, k in enumerate(ks) if k == d["kind"]]
+    if d["mode"] == "L":
+        return list(d["arg"])
+    return [d["arg"]]
+
+
+def gen_select(rng, tier):
+    ops = []
+    for _ in range(60 if tier == "quick" else 300):
+        seed = rng.u64() >> 1
+        N = rng.range(1, 40)
+        nf = rng.choice([1, 2, 3, 5, 8, 15, 16, 17, 31, 33]) if rng.chance(0.5) else rng.range(1, 40)
+        feats = []
+        for _ in range(nf):
+            k = rng.below(5)
+            feats.append((k, rng.range(2, 4) if k <= 1 else (rng.range(1, 3) if k == 3 else 1)))
+        tkind = rng.choice(["R", "S", "M"]); tdim = 1 if tkind == "R" else 2
+        miss = rng.choice([0, 20, 60])
+        a, b, smode = 0, N, 0
+        if N > 2 and rng.chance(0.3):
+            a = 0; b = rng.range(1, N); smode = 1
+        threads = rng.choice([1, 2, 3, 4, 7, 16])
+        ks = dataset_kinds(feats)
+        kind = rng.below(4)
+        mine = [i for i, k in enumerate(ks) if k == kind]
+        r = rng.below(10)
+        if r < 5 or not mine:
+            ops.append(make_select(seed, N, feats, tkind, tdim, miss, a, b, smode, threads, kind, "A"))
+        elif r < 9:
+            m = rng.range(0, 2 * len(mine))
+            lst_ = [rng.choice(mine) for _ in range(m)] if rng.chance(0.5) else rng.shuffle(list(mine))[:max(1, m)]
+            ops.append(make_select(seed, N, feats, tkind, tdim, miss, a, b, smode, threads, kind, "L", lst_))
+        else:
+            ops.append(make_select(seed, N, feats, tkind, tdim, miss, a, b, smode, threads, kind, "O", rng.choice(mine)))
+    return ops
+
+
+def oracle_select(aug, res):
+    try:
+        d, t = parse_select(aug)
+        if t.s() != "|":
+            return "[dump] no dump"
+        workers = t.int(); kinds = t.ints(); asg = t.ints()
+        r = Toks(res)
+        if r.s() != "ok":
+            return f"[no-answer] implementation did not answer ok: {res[:120]}"
+        ncalls = r.int(); bad = r.int()
+        rows = []
+        while not r.done():
+            rows.append((r.int(), r.int(), r.int()))
+    except (ValueError, IndexError) as ex:
+        return f"[dump] {ex}"
+    if kinds != dataset_kinds(d["feats"]):
+        return f"[dump] feature kinds {kinds} of the dataset, {dataset_kinds(d['feats'])} expected from the op"
+    want = {}
+    for f in select_expected(d):
+        want[f] = want.get(f, 0) + 1
+    got = {f: c for f, c, _ in rows}
+    if got != want or ncalls != sum(want.values()):
+        return (f"[select-visits] threads={d['threads']} kind={d['kind']} mode={d['mode']}: callback called for {got} "
+                f"({ncalls} calls), expected every feature of the list exactly once: {want}")
+    if bad:
+        return f"[select-tnum] {bad} calls with a thread number >= {workers}"
+    for f, c, e in rows:
+        if e != c:
+            return f"[select-values] feature {f}: {c - e} of {c} calls received values different from dataset.select(samples, {f})"
+    if any(w < 0 or w >= workers for w in asg):
+        return f"[schedule] workers {asg[:8]} of {workers}"
+    return None
 
 
 # ---------------------------------------------------------------------------------------------------------------------
@@ -366,6 +937,11 @@ def reference(aug):
     for _ in range(V):
         w = t.int(); bt = t.int(); asg = t.ints()
         R.sched.append((w, bt, asg))
+    if t.done() or t.s() != "raw":
+        raise ValueError("no raw dump")
+    eps = t.f(); t.f(); t.f()
+    enF = t.ints(); enT = t.ints()
+    RXt = ftoks(); RTt = ftoks()
     if not t.done():
         raise ValueError("trailing tokens in the dump")
     h = 0xCBF29CE484222325
@@ -375,6 +951,17 @@ def reference(aug):
     X = [h2f(x) for x in Xt]; T = [h2f(x) for x in Tt]; P = [h2f(x) for x in Pt]
     Lv = [h2f(x) for x in Lt]; G = [h2f(x) for x in Gt]; SO = [h2f(x) for x in SOt]; WO = [h2f(x) for x in WOt]
     R.nonfinite = sum(1 for v in X + T if not math.isfinite(v))
+    # ---- end to end: the definition's data are recomputed here from the RAW dump (statistics + scaling, C14's documented
+    #      formulas); what the iterator served must agree with them, and the definition below is evaluated on OUR data
+    if len(enF) != s or len(enT) != ts or len(RXt) != n * s or len(RTt) != n * ts:
+        raise ValueError("raw dump sizes")
+    RX = [h2f(x) for x in RXt]; RT = [h2f(x) for x in RTt]
+    mode = op["scaling"]
+    myX, fst = scale_matrix(RX, n, s, enF, mode, eps)
+    myT, tst = scale_matrix(RT, n, ts, enT, mode, eps)
+    R.raw_mismatch = served_mismatch("inputs", X, myX, RX, n, s, fst, mode) or served_mismatch("targets", T, myT, RT, n, ts, tst, mode)
+    if R.raw_mismatch is None:
+        X, T = list(myX), list(myT)
     if len(T) != n * ts or len(Lv) != n or len(G) != n * ts or len(P) != d or n != op["b"] - op["a"]:
         raise ValueError("dump sizes")
     if kind == "linear" and (len(X) != n * s or d != ts * s + ts):
@@ -518,6 +1105,10 @@ def oracle_reduce(op, res):
 def oracle(aug, res):
     if aug.startswith("reduce "):
         return oracle_reduce(aug, res)
+    if aug.startswith("iter select "):
+        return oracle_select(aug, res)
+    if aug.startswith("iter "):
+        return oracle_iter(aug, res)
     impl = parse_impl(res)
     if impl is None:
         return f"[no-answer] implementation did not answer ok: {res[:120]}"
@@ -529,6 +1120,8 @@ def oracle(aug, res):
         return "[dump] number of configurations"
     if R.nonfinite:
         return f"[served-data] {R.nonfinite} non-finite value(s) served by the iterator (missing values must be served as 0)"
+    if R.raw_mismatch:
+        return f"[served-vs-raw] {R.raw_mismatch}"
     if R.dump_mismatch:
         return f"[loss-kernel] {R.dump_mismatch}"
     n = R.n
@@ -571,6 +1164,10 @@ def compare(aug, impl_line, model_line):
         except (ValueError, IndexError):
             return False
         return len(ga) == len(gm) == len(ref) and all(abs(x - y) <= 1e-12 * mag + 5e-324 for x, y, (_, mag) in zip(ga, gm, ref))
+    if aug.startswith("iter select "):
+        return impl_line.split() == model_line.split()
+    if aug.startswith("iter "):
+        return compare_iter(impl_line, model_line)
     impl = parse_impl(impl_line)
     if impl is None:
         return False
@@ -581,8 +1178,8 @@ def compare(aug, impl_line, model_line):
         V = m.int()
         mv = []
         for _ in range(V):
-            fx = m.f(); g = m.fs()
-            mv.append((fx, g))
+            fx0m = m.f(); fx = m.f(); g = m.fs()
+            mv.append((fx0m, fx, g))
         if m.s() != "def":
             return False
         dfx = m.f(); dg = m.fs()
@@ -593,10 +1190,10 @@ def compare(aug, impl_line, model_line):
         return False
     if V != len(impl):
         return False
-    for (h, fx0, fx, g), (mfx, mg) in zip(impl, mv):
+    for (h, fx0, fx, g), (mfx0, mfx, mg) in zip(impl, mv):
         if len(g) != len(mg) or len(g) != len(dg) or len(g) != len(R.grad_scale):
             return False
-        if not (within(fx, mfx, R.value_scale) and within(fx0, mfx, R.value_scale) and within(fx, dfx, R.value_scale)):
+        if not (within(fx, mfx, R.value_scale) and within(fx0, mfx0, R.value_scale) and within(fx, dfx, R.value_scale)):
             return False
         for a, b, c, sc in zip(g, mg, dg, R.grad_scale):
             if not (within(a, b, sc) and within(a, c, sc)):
@@ -607,6 +1204,8 @@ def compare(aug, impl_line, model_line):
 def classify(op, kind, detail):
     t = op.split()
     fam = t[1] if len(t) > 1 else "?"
+    if t and t[0] == "iter":
+        fam = "iter"
     if kind == "oracle" and detail.startswith("["):
         return f"{fam}/{detail[1:detail.index(']')]}"
     return f"{fam}/{kind}"
@@ -614,6 +1213,37 @@ def classify(op, kind, detail):
 
 def shrink_candidates(op):
     if op.startswith("reduce "):
+        return
+    if op.startswith("iter select "):
+        try:
+            d, _ = parse_select(op)
+        except Exception:
+            return
+        if d["mode"] == "L":
+            for i in range(len(d["arg"])):
+                yield select_of(dict(d, arg=d["arg"][:i] + d["arg"][i + 1:]))
+        for key, val in [("miss", 0), ("N", 2)]:
+            if d[key] != val and not (key == "N" and d["b"] > 2):
+                yield select_of(dict(d, **{key: val}))
+        return
+    if op.startswith("iter "):
+        try:
+            d, _ = parse_iter(op)
+        except Exception:
+            return
+        for i in range(len(d["steps"])):
+            if d["steps"][i][0] not in ("L", "LF", "LT") or sum(1 for st in d["steps"] if st[0] in ("L", "LF", "LT")) > 1:
+                yield iter_of(dict(d, steps=d["steps"][:i] + d["steps"][i + 1:]))
+        n = d["b"] - d["a"]
+        for newN in [2, 3, 5, 8, n // 2, n - 1]:
+            if 1 <= newN < n:
+                yield iter_of(dict(d, N=newN, a=0, b=newN, smode=0))
+        if len(d["feats"]) > 1:
+            for i in range(len(d["feats"])):
+                yield iter_of(dict(d, feats=d["feats"][:i] + d["feats"][i + 1:]))
+        for key, val in [("miss", 0), ("threads", 1), ("sbF", 1000), ("sbT", 1000), ("smode", 0)]:
+            if d[key] != val:
+                yield iter_of(dict(d, **{key: val}))
         return
     try:
         d, _ = parse_op(op)
